@@ -298,8 +298,31 @@ def run(ck, facts):
             key = "%s/loop@%s" % (C.norm_path(f["path"]).replace("diplomat_tool::", ""), "traits" if any(c.endswith("all_traits") for c in it_calls) else "types")
             key += "#%d" % sum(1 for i in ck.instances if i["key"].startswith(key))
             ck.expect(dis_idx is not None and (gen_idx is None or dis_idx <= gen_idx), "R4", key, "tests disable first", "backend loop over %s generates output without first skipping disabled items" % ("traits" if "traits" in key else "types"), C.loc(f, n.get("ln")))
+            # nothing that can fail (name formatting panics on reserved names, generators report errors) runs for an item before its disable test
+            BENIGN = {"set_context_ty", "name", "as_str", "into", "attrs", "resolve_type", "resolve_trait", "clone", "to_string", "as_ref", "deref", "borrow", "try_into", "unwrap", "from", "id", "clear", "new", "methods", "default"}
+            early = sorted({(x2.get("m") or (C.callee(x2) or "").split("::")[-1]) for x in items[:dis_idx or 0] for x2 in C.walk(x) if x2.get("k") in ("mcall", "call")} - BENIGN)
+            if dis_idx is not None:
+                ck.expect(not early, "R4", key + "/nothing-before-disable", "only context bookkeeping precedes the test", "for every item, also one disabled for this backend, the loop first calls %s: "
+                          "an item switched off because this backend cannot represent it (reserved name, unsupported shape) still makes the run fail" % early, C.loc(f, n.get("ln")))
     if nloops < 8:
         ck.bad("R4", "loops-floor", "only %d backend loops over all_types/all_traits found (8 counted)" % nloops)
+
+    # the pure C backend does not render `rename` at all (every C name -- typedefs, file names, references, symbols -- stays the Rust name): each application of
+    # attrs.rename in the C formatter sits under `if self.is_for_cpp`
+    nren = 0
+    for f in tool.fn_list:
+        if "hir" not in f or not C.norm_path(f["path"]).startswith("diplomat_tool::c::formatter::"):
+            continue
+        for n, st in C.with_conditions(C.fn_body(f)):
+            if n.get("k") == "mcall" and n.get("m") == "apply" and C.strip(n["recv"]).get("k") == "field" and C.strip(n["recv"]).get("n") == "rename":
+                nren += 1
+                cpp_only = any(kind == "if" and b_ == "t" and any(x.get("k") == "field" and x.get("n") == "is_for_cpp" for x in C.walk(a_)) and
+                               not any(x.get("k") in ("un", "unary") and x.get("op") == "Not" for x in C.walk(a_)) for kind, a_, b_ in st)
+                key = "c::formatter::%s/rename-cpp-only#%d" % (f["name"], sum(1 for i in ck.instances if i["rule"] == "R4" and i["key"].startswith("c::formatter::%s/rename-cpp-only" % f["name"])))
+                ck.expect(cpp_only, "R4", key, "under is_for_cpp", "the C formatter applies `rename` outside `if self.is_for_cpp` in %s: a rename whose condition holds for `c` changes some C names (type references) "
+                          "but not others (typedefs, file names), so the C output changes and stops compiling" % f["name"], C.loc(f, n.get("ln")))
+    if nren < 1:
+        ck.bad("R4", "c::formatter/rename-floor", "no application of attrs.rename found in the C formatter (3 counted)")
 
     # ---------------- R5 macro
     cn = facts.core_nohir
@@ -417,6 +440,20 @@ def run(ck, facts):
                     par = C.strip(list(C.children(par))[0])
                 mp.append(par.get("n") if par.get("k") in ("field", "local") else par.get("k"))
             ck.expect(mp == ["method_parent_attrs"], "R6", fname + "/method-parent", str(mp), "%s passes %s as the methods' parent attributes" % (fname, mp), C.loc(f))
+            # a type disabled for this backend gets no methods lowered at all (its methods may use shapes the backend does not support: lowering them would reject a
+            # module whose author disabled the type precisely for that backend) -- the four lowerers agree on this
+            guarded = []
+            for n, st in C.with_conditions_inl(core, C.fn_body(f), depth=1):
+                if n.get("k") == "mcall" and n.get("m") == "lower_all_methods":
+                    g_ = False
+                    for kind, a_, b_ in st:
+                        if kind == "if" and any(x.get("k") == "field" and x.get("n") == "disable" for x in C.walk(a_)):
+                            neg = any(x.get("k") in ("un", "unary") and x.get("op") == "Not" for x in C.walk(a_))
+                            g_ = g_ or ((b_ == "e") != neg)
+                    guarded.append(g_)
+            ck.expect(bool(guarded) and all(guarded), "R4", fname + "/no-methods-when-disabled", "lower_all_methods only when !attrs.disable",
+                      "%s lowers the methods of a type even when the type is disabled for the backend (%s): a conditional `disable` on the type no longer keeps methods with unsupported shapes "
+                      "(callbacks, options, ...) away from that backend's lowering, the run aborts" % (fname, guarded), C.loc(f))
 
     # ---------------- R7 sibling independence (no attribute state carried from one item to the next)
     AST_ATTRS = "ast::attrs::Attrs"
